@@ -871,6 +871,8 @@ package sarama
 
 //@ func (ps *produceSet) add(msg) props C16 C04 C05
 //@   returns err
+//@   callsite RecordBatch.addRecord: requires[record_carries_key_and_value @C04] (msg.Key != nil ==> $r.Key == encodedOf(msg.Key)) && (msg.Key == nil ==> isnil($r.Key)) && (msg.Value != nil ==> $r.Value == encodedOf(msg.Value)) && (msg.Value == nil ==> isnil($r.Value))
+//@   callsite MessageSet.addMessage: requires[message_carries_key_and_value @C04] (msg.Key != nil ==> $msg.Key == encodedOf(msg.Key)) && (msg.Key == nil ==> isnil($msg.Key)) && (msg.Value != nil ==> $msg.Value == encodedOf(msg.Value)) && (msg.Value == nil ==> isnil($msg.Value))
 //@   requires ps.msgs != nil && 0 <= ps.bufferBytes && ps.bufferBytes <= 2305843009213693952 && 0 <= ps.bufferCount && ps.bufferCount <= 2305843009213693952
 //@   requires forall t string, p int32 :: ps.msgs[t] != nil && ps.msgs[t][p] != nil ==> 0 <= ps.msgs[t][p].bufferBytes && ps.msgs[t][p].bufferBytes <= 2305843009213693952
 //@   requires forall t string, p int32 :: ps.msgs[t] != nil && ps.msgs[t][p] != nil && verAtLeast(ps.parent.conf.Version, V0_11_0_0) ==> ps.msgs[t][p].recordsToSend.RecordBatch != nil
@@ -1275,7 +1277,7 @@ package sarama
 //@   loopname activate: range abortedTransactions
 //@   loop activate: invariant[pending_is_a_suffix] len(abortedTransactions) == len($s) - $i && forall k :: 0 <= k && k < len(abortedTransactions) ==> abortedTransactions[k] == $s[$i + k]
 //@   callsite partitionConsumer.parseRecords: requires[aborted_index_consumed_up_to_batch @C11] len(abortedTransactions) == 0 || abortedTransactions[0].FirstOffset > wrap64(records.RecordBatch.FirstOffset + records.RecordBatch.LastOffsetDelta)
-//@   callsite append#1: requires[no_control] !isControl
+//@   callsite append#1: requires[no_control] records.RecordBatch != nil ==> !records.RecordBatch.Control
 //@   callsite append#1: requires[committed_only] child.conf.Consumer.IsolationLevel == ReadCommitted && records.RecordBatch.IsTransactional ==> !haskey(abortedProducerIDs, records.RecordBatch.ProducerID)
 //@   ensures[strictly_increasing @C03] err == nil ==> forall a, b :: 0 <= a && a < b && b < len(msgs) ==> msgs[a].Offset < msgs[b].Offset
 //@   ensures[fresh_messages @C18] err == nil ==> forall k :: 0 <= k && k < len(msgs) ==> msgs[k].chained == 0 && msgs[k].delivered == 0 && msgs[k] != nil
@@ -1572,7 +1574,8 @@ package sarama
 //@   callsite write: requires[under_lock] lockheld(b.lock)
 //@   callsite write: requires[wire_bound] b.queued + b.holding + 1 <= b.conf.Net.MaxOpenRequests
 //@   callsite send.responses: requires[under_lock] lockheld(b.lock)
-//@   callsite send.responses: requires[id_of_written_request] $value.correlationID == req.correlationID && req.correlationID == old(b.correlationID) && $value.headerVersion == responseHeaderVersion
+//@   callsite pkg.encode: requires[request_stamped] dyntype($e) == typeid(*request) && $e.(*request).correlationID == b.correlationID && b.correlationID == old(b.correlationID)
+//@   callsite send.responses: requires[id_of_written_request] $value.correlationID == old(b.correlationID) && $value.headerVersion == responseHeaderVersion
 //@   ensures[id_advance] err == nil ==> b.correlationID == wrap32(old(b.correlationID) + 1)
 //@   ensures[id_kept_on_failure] err != nil ==> b.correlationID == old(b.correlationID)
 //@   ensures[promise_id] err == nil && promiseResponse ==> promise != nil && promise.correlationID == old(b.correlationID)
@@ -2062,6 +2065,11 @@ package sarama
 //@   ensures[reads_flag] (old(r.recordsType) == legacyRecords && r.MsgSet != nil ==> err == nil && p == r.MsgSet.PartialTrailingMessage) && (old(r.recordsType) == defaultRecords && r.RecordBatch != nil ==> err == nil && p == r.RecordBatch.PartialTrailingRecord)
 //@   ensures[type_kept] old(r.recordsType) != unknownRecords ==> r.recordsType == old(r.recordsType)
 //@   modifies r.recordsType
+//@ func (r *Records) isControl() props C11 C03
+//@   returns c, err
+//@   ensures[reads_flag] old(r.recordsType) == defaultRecords && r.RecordBatch != nil ==> err == nil && c == r.RecordBatch.Control
+//@   ensures[type_kept] old(r.recordsType) != unknownRecords ==> r.recordsType == old(r.recordsType)
+//@   modifies r.recordsType
 //@ func (r *Records) isOverflow() props C10
 //@   returns o, err
 //@   ensures[reads_flag] (old(r.recordsType) == legacyRecords && r.MsgSet != nil ==> err == nil && o == r.MsgSet.OverflowMessage) && (old(r.recordsType) == defaultRecords ==> err == nil && !o)
@@ -2492,3 +2500,17 @@ package sarama
 //@   ensures[at_most_one_refresh] client.refreshCalls <= old(client.refreshCalls) + 1
 //@   ensures[answer_is_the_latest_lookup] client.refreshCalls == old(client.refreshCalls) + 1 && b != nil ==> b == leader
 //@   nosafety
+
+// (C04) the record (or legacy message) added for a message carries exactly what the message's encoders yield: the
+// key is the encoding of msg.Key when there is a key and absent otherwise, likewise the value. encodedOf is the
+// byte string an Encoder stands for (what Encode returns when it succeeds).
+//@ ghost func encodedOf(Encoder) []byte
+//@ func (e Encoder) Encode() props C04
+//@   returns b, err
+//@   ensures[yields_its_encoding] err == nil ==> b == encodedOf(e)
+//@   modifies nothing
+
+// (C10) "a length that disagrees with the data is reported as an error": every length or CRC field a decoder pushes
+// is popped - and thereby checked against the bytes read - on every path on which the decoder succeeds
+// (obligation wire/<Type>/balanced of the relational contract).
+//@ wiredual[balanced] props C10
